@@ -228,7 +228,7 @@ func TestC18Shutdown(t *testing.T) {
 					proxy.ListenAndServeTCP(l, &tcp.SNIProxy{Lookup: lookupHost, DialTimeout: time.Second}, nil)
 				case "grpc":
 					sh := &proxy.GrpcStatsHandler{Connect: dp.NewCounter("c"), Request: dp.NewHistogram("r"), NoRoute: dp.NewCounter("n"), Status: dp.NewHistogram("s", "code")}
-					proxy.ListenAndServeGRPC(l, newGrpcProxy(cfg, nil, sh), nil)
+					proxy.ListenAndServeGRPC(l, flexAs[[]grpc.ServerOption](newGrpcProxy, cfg, sh), nil)
 				case "https+tcp+sni":
 					tlscfg := &tls.Config{Certificates: []tls.Certificate{cert}}
 					matcher := func(ctx context.Context, host string) bool { return host == "sni.example" }
